@@ -19,6 +19,7 @@ import CaddyModel.C11.Witness
 import CaddyModel.C11.CaddyfileProps
 import CaddyModel.C11.NamesProps
 import CaddyModel.Gen.Glue
+import CaddyModel.Gen.Consts
 
 namespace CaddyModel.C11
 
@@ -416,6 +417,27 @@ example : ∃ kv ∈ serversOf exCfg exP Orders.id, kv.1 = 1 ∧
     serve exP [⟨[[1]]⟩, ⟨[]⟩] (some 1) kv.2.routes = Served.user 0 ∧
     serve exP [⟨[[1]]⟩, ⟨[]⟩] (some 2) kv.2.routes = Served.redir 8443 ∧
     serve exP [⟨[[1]]⟩, ⟨[]⟩] none kv.2.routes = Served.user 1 := by decide
+
+/-- **the unprovisioned redirect matcher gets its hosts in sorted order.**  `makeRedirRoute`'s
+    host matcher is `MatchHost(domains)`, built by phase 1 and never provisioned (no lower-casing,
+    no sort).  For more than `Gen.matchHostLargeThreshold` names `MatchHost` looks exact names up
+    by binary search, which is only correct on a list in its own sort order.  What phase 1
+    guarantees instead: `domains` is in the order `redirDomains` is ranged in — byte-wise sorted
+    since the repair (`sorted_ranges_matches_source`).  FRAGILE GLUE: any change of MatchHost's
+    internal order, or of the iteration order here, silently breaks the redirects of servers with
+    more than the threshold of names (seeded change
+    `C11-matchhost-order-breaks-unprovisioned-redirect-matcher`); names with upper-case letters
+    or placeholders in such lists are outside what this order guarantees. -/
+theorem redirect_matcher_hosts_sorted (R : Name → Name → Prop) (π : Orders) (rd : RD)
+    (h : ((pull π.dom rd).map (·.1)).Pairwise R) :
+    ∀ ad ∈ domainsByAddr π rd, ad.2.Pairwise (fun x y => R x y ∨ x = y) :=
+  redirect_hosts_follow_iteration_order R π rd h
+
+example : ∀ ad ∈ domainsByAddr { Orders.id with dom := [1, 2, 3] } (mainLoop exCfg exP Orders.id).2,
+    ad.2.Pairwise (fun x y => x < y ∨ x = y) := by decide
+
+/-- the large-list threshold the big-server cases of the harness are sized for -/
+theorem large_host_list_threshold_matches_source : Gen.matchHostLargeThreshold = some 100 := by decide
 
 /-! ### the same result every time -/
 
